@@ -85,6 +85,13 @@ def main():
             r = run_one(sid)
             results[sid] = r
             caught = r.get("applied") and any(c["exit"] == 1 for c in r["checks"].values())
+            meta = json.load(open(os.path.join(SEEDED, sid, "meta.json")))
+            if meta.get("expect_quiet"):
+                noisy = [p for p, c in r.get("checks", {}).items() if c["exit"] != 0]
+                r["expect_quiet"] = True
+                print(sid, "QUIET (as it must be)" if r.get("applied") and not noisy else f"FALSE ALARM / ERROR in {noisy}", flush=True)
+                json.dump(results, open(out_path, "w"), indent=1)
+                continue
             print(sid, "CAUGHT" if caught else "MISSED" if r.get("applied") else "PATCH-FAILED",
                   {p: (c["exit"], "concrete" if c["concrete"] else "") for p, c in r.get("checks", {}).items()}, flush=True)
             json.dump(results, open(out_path, "w"), indent=1)
